@@ -175,7 +175,22 @@ def run(ctx):
                 'alsoProvides, noLongerProvides, queries} on an interface DAG <=3; after every step implementedBy/providedBy and '
                 'I.implementedBy/I.providedBy of every class and instance checked against the two-sided ghost-history bounds; '
                 'distinct = histories')
-    ctx.bounds = 'history<=9, interfaces<=3'
+    ctx.bounds = 'random history<=9; exhaustive sequences<=3/4 over 15 calls'
+    # exhaustive: every sequence of <=3 (quick) / 4 (thorough) declaration calls on one instance of a class K0 and K0
+    # itself, over the chain I0 <- I1 <- I2 (one argument each)
+    import itertools
+    chain = ((), (0,), (1,))
+    alphabet = [(op, 0, (k,), k) for op in ('dp', 'ap', 'nlp', 'ci', 'cio') for k in range(3)]
+    for ln in range(1, (3 if ctx.tier == 'quick' else 4) + 1):
+        for seq in itertools.product(alphabet, repeat=ln):
+            if ctx.out_of_time() or ctx.too_many():
+                return
+            spec = (chain, (('inst', 0, (), 0),) + seq)
+            bad, n = play(spec)
+            ctx.evaluations += n
+            ctx.distinct.add(spec)
+            for sig, what, known in bad[:1]:
+                ctx.violation(known or sig, what, 'from falsify.C01 import replay\nreplay(%r)\n' % (spec,), known)
     trials = 1500 if ctx.tier == 'quick' else 20000
     for t in range(trials):
         if ctx.out_of_time() or ctx.too_many():
